@@ -59,17 +59,45 @@ def _mm():
     return mm
 
 
+RUN_LIMIT_S = 180  #: wall-clock limit of one (model, target) run; C02 is about crashes, a slow run is only noted
+
+
+class _RunTimeout(BaseException):
+    pass
+
+
+def _on_alarm(signum: int, frame: Any) -> None:
+    raise _RunTimeout()
+
+
 def run_entry(entry: str, text: str, symbol_table: Any, cache_dir: Optional[pathlib.Path] = None) -> Dict[str, Any]:
     """One (model, target|smoke) run judged by the statement of C02. Never raises."""
+    import signal
+    import threading
+
     mm = _mm()
-    if entry == "smoke":
-        r = mm.smoke(text)
-        out_files = None
-    else:
-        out = mm.new_scratch("out")
-        r = mm.generate(entry, text, out, symbol_table=symbol_table, cache_dir=cache_dir)
-        out_files = sum(1 for p in out.rglob("*") if p.is_file()) if out.exists() else 0
+    timed = threading.current_thread() is threading.main_thread()
+    if timed:
+        old_handler = signal.signal(signal.SIGALRM, _on_alarm)
+        signal.setitimer(signal.ITIMER_REAL, RUN_LIMIT_S)
+    try:
+        if entry == "smoke":
+            r = mm.smoke(text)
+            out_files = None
+        else:
+            out = mm.new_scratch("out")
+            r = mm.generate(entry, text, out, symbol_table=symbol_table, cache_dir=cache_dir)
+            out_files = sum(1 for p in out.rglob("*") if p.is_file()) if out.exists() else 0
+    except _RunTimeout:  # raised outside the guarded project call (our own bookkeeping)
+        return {"entry": entry, "rc": None, "seconds": RUN_LIMIT_S, "outcome": "timeout"}
+    finally:
+        if timed:
+            signal.setitimer(signal.ITIMER_REAL, 0)
+            signal.signal(signal.SIGALRM, old_handler)
     res: Dict[str, Any] = {"entry": entry, "rc": r.rc, "seconds": round(r.seconds, 3)}
+    if r.exception == "crash:_RunTimeout":
+        res["outcome"] = "timeout"
+        return res
     if r.exception is not None:
         res["outcome"] = "crash"
         res["sig"] = crash_sig(r.exception, r.traceback)
@@ -156,6 +184,8 @@ def judge(ctx: Ctx, name: str, text: str, stream: str, res: Dict[str, Any], expe
                 ctx.fail(dict(inp, entry=r["entry"]), f"{r['entry']}: {r['what']}", r["sig"], {"entry": r["entry"]})
         elif r["outcome"] == "error":
             ctx.hit(f"{r['entry']}:error:{r['headline'][:70]}")
+        elif r["outcome"] == "timeout":
+            ctx.note(f"{r['entry']} did not finish within {RUN_LIMIT_S} s on the model {name} (stream {stream}); not judged")
     if len(ctx.samples) < 12 and res["accepted"]:
         ctx.sample({"name": name, "stream": stream, "outcomes": {r["entry"]: r["outcome"] for r in res["runs"]}, "chars": len(text)})
 
@@ -377,7 +407,7 @@ def replay(ctx: Ctx, data: Dict[str, Any]) -> Dict[str, Any]:
     res = run_model(text, entries)
     return {"name": inp.get("name"), "frontend": res["frontend"], "frontend_sig": res.get("frontend_sig"),
             "runs": [{k: r.get(k) for k in ("entry", "outcome", "rc", "sig", "what", "headline")} for r in res["runs"]],
-            "property_holds": res["frontend"] != "crash" and all(r["outcome"] in ("ok", "error") for r in res["runs"])}
+            "property_holds": res["frontend"] != "crash" and all(r["outcome"] in ("ok", "error", "timeout") for r in res["runs"])}
 
 
 # =========================================================================== Gen/Generators.lean
